@@ -119,20 +119,22 @@ type interpreter struct {
 	modelValid bool
 	uncertain  bool // a feasibility query came back unknown on this path
 
-	mapOrderFork bool
-	goMode       goMode
-	pending      []pendingGo
-	goDepth      int
-	bigs         map[*value]*Term // math/big.Int model: address of the struct -> Int term
-	vecPos       int
-	extra        map[string]interface{}
+	mapOrderFork    bool
+	goMode          goMode
+	pending         []pendingGo
+	goDepth         int
+	bigs            map[*value]*Term // math/big.Int model: address of the struct -> Int term
+	vecPos          int
+	internalChoices int
+	extra           map[string]interface{}
 }
 
 type nondetRec struct {
-	Name string
-	Term *Term // nil for concrete choices
-	Conc uint64
-	Kind string
+	Name     string
+	Term     *Term // nil for concrete choices
+	Conc     uint64
+	Kind     string
+	Internal bool // engine-only input (not consumed by the native harness)
 }
 
 type observeRec struct {
@@ -309,13 +311,14 @@ func (i *interpreter) pickValue(t *Term) (uint64, bool) {
 // ---------------------------------------------------------------- explorer
 
 type Violation struct {
-	Label     string   `json:"label"`
-	Msg       string   `json:"msg"`
-	Vector    []uint64 `json:"vector"`
-	Names     []string `json:"names"`
-	Decisions []int    `json:"decisions"`
-	Confirmed bool     `json:"model_confirmed"` // solver returned sat (not unknown)
-	Internal  bool     `json:"uses_internal_choices"`
+	Label        string   `json:"label"`
+	Msg          string   `json:"msg"`
+	Vector       []uint64 `json:"vector"`
+	Names        []string `json:"names"`
+	Decisions    []int    `json:"decisions"`
+	Confirmed    bool     `json:"model_confirmed"` // solver returned sat (not unknown)
+	Internal     bool     `json:"uses_internal_choices"`
+	InternalVals []string `json:"engine_only_inputs,omitempty"`
 }
 
 type Sample struct {
@@ -667,18 +670,18 @@ func (i *interpreter) vector(extra *Term) (vec []uint64, names []string, ok bool
 	}
 	k := 0
 	for _, n := range i.nondets {
-		names = append(names, n.Name)
+		var val uint64
 		if n.Term != nil {
-			v := vals[k]
+			val = vals[k].Uint64()
 			k++
-			if n.Term.Sort.K == KBV && n.Term.Sort.W <= 64 || n.Term.Sort.K == KBool {
-				vec = append(vec, v.Uint64())
-			} else {
-				vec = append(vec, v.Uint64())
-			}
 		} else {
-			vec = append(vec, n.Conc)
+			val = n.Conc
 		}
+		if n.Internal {
+			continue
+		}
+		names = append(names, n.Name)
+		vec = append(vec, val)
 	}
 	m := Model{}
 	for k, v := range vars {
@@ -782,11 +785,7 @@ func (i *interpreter) recordViolation(label, msg string) {
 	}
 	vec, names, ok, confirmed := i.vector(nil)
 	v := Violation{Label: label, Msg: msg, Vector: vec, Names: names, Decisions: append([]int(nil), i.decisions...), Confirmed: ok && confirmed}
-	for _, nd := range i.nondets {
-		if nd.Kind == "maporder" {
-			v.Internal = true
-		}
-	}
+	v.Internal = i.internalChoices > 0
 	if !ok {
 		ex.mu.Lock()
 		ex.vcount[label]--
